@@ -32,7 +32,7 @@ def parse(raw: bytes):
     from xknx.cemi import CEMIFrame
     from xknx.exceptions import CouldNotParseCEMI, UnsupportedCEMIMessage
 
-    signal.setitimer(signal.ITIMER_REAL, 1.0)
+    signal.setitimer(signal.ITIMER_VIRTUAL, 2.0)   # CPU time of this process: a busy machine does not trip the watchdog
     try:
         return "frame", CEMIFrame.from_knx(raw)
     except CouldNotParseCEMI:
@@ -44,7 +44,7 @@ def parse(raw: bytes):
     except Exception as ex:  # noqa: BLE001 - undeclared
         return "other:" + type(ex).__name__, None
     finally:
-        signal.setitimer(signal.ITIMER_REAL, 0)
+        signal.setitimer(signal.ITIMER_VIRTUAL, 0)
 
 
 def telegrams(rnd, lengths):
@@ -147,7 +147,7 @@ def run12(ck):
 
     rnd = random.Random(ck.seed)
     ck.assume("reaching a last-resort `except Exception` of the receive handlers (logged with logger.exception) counts as an undeclared error")
-    old = signal.signal(signal.SIGALRM, _alarm)
+    old = signal.signal(signal.SIGVTALRM, _alarm)
     cases, ins = [], inputs12(ck, rnd)
     fallback = []
     try:
@@ -187,7 +187,7 @@ def run12(ck):
         loop.close()
         asyncio.set_event_loop(None)
     finally:
-        signal.signal(signal.SIGALRM, old)
+        signal.signal(signal.SIGVTALRM, old)
     send = [{k: v for k, v in c.items() if k in ("t", "b", "out")} for c in cases]
     res = tlc.batch(ck, "cemi/CemiLData_Judge", send, min_per_shard=3000)
     seen = set()
@@ -249,7 +249,7 @@ def run13(ck):
             cases.append(c)
             info.append(str(tg)[:120])
     # every frame the parser accepts is serialised again
-    old = signal.signal(signal.SIGALRM, _alarm)
+    old = signal.signal(signal.SIGVTALRM, _alarm)
     try:
         for kind, mk, raw in inputs12(ck, rnd):
             out, fr0 = parse(raw)
@@ -284,7 +284,7 @@ def run13(ck):
             cases.append(c)
             info.append(raw.hex()[:120])
     finally:
-        signal.signal(signal.SIGALRM, old)
+        signal.signal(signal.SIGVTALRM, old)
     send = [{k: v for k, v in c.items() if k not in ("kind", "note")} for c in cases]
     res = tlc.batch(ck, "cemi/CemiLData_Judge", send, min_per_shard=3000)
     seen = set()
